@@ -147,8 +147,9 @@ def h_parse_fields():
         ctx = vm.ctx
         W = GW(vm)
         n = 4
-        privs = [ctx.choice(2, f"private?{i}") == 0 for i in range(n)]
-        fs = [W.field(("_p%d" if p else "f%d") % i) for i, p in enumerate(privs)]
+        kinds = [ctx.choice(3, f"name-kind?{i}") for i in range(n)]        # 0 private, 1 public, 2 public with inner / trailing underscores
+        privs = [k == 0 for k in kinds]
+        fs = [W.field(("_p%d", "f%d", "t_%d_")[k] % i) for i, k in enumerate(kinds)]
         t = W.table("A")
         calls = []
         vm.spec.attr_hooks[(T, "fields")] = lambda it, o: PyList(list(fs))
@@ -158,7 +159,7 @@ def h_parse_fields():
         want = [("field", f) for f, p in zip(fs, privs) if not p] + [("mapper_args",)]
         ctx.check(f"{T}.parse_fields::every-public-field-once-in-order-private-fields-never-then-mapper-args", z3.BoolVal(calls == want), detail=repr(calls))
         ctx.cover("done")
-    return Harness("parse-fields", run, spec=Spec(), covers=["done"], max_paths=100)
+    return Harness("parse-fields", run, spec=Spec(), covers=["done"], max_paths=200)
 
 
 def h_fields():
@@ -342,7 +343,8 @@ def h_no_hash_order():
                     src = ast.unparse(it)
                     # iteration over something that is syntactically a set: set(...), {...}, a set difference, .keys() & ...
                     if isinstance(it, (ast.Set, ast.SetComp)) or (isinstance(it, ast.Call) and isinstance(it.func, ast.Name) and it.func.id in ("set", "frozenset")) \
-                            or (isinstance(it, ast.BinOp) and isinstance(it.op, (ast.Sub, ast.BitAnd, ast.BitOr)) and "names" in src):
+                            or (isinstance(it, ast.BinOp) and isinstance(it.op, (ast.Sub, ast.BitAnd, ast.BitOr, ast.BitXor))
+                                and (".keys()" in src or "names" in src or "set(" in src)):
                         offenders.append(f"{modname}:{getattr(node, 'lineno', getattr(it, 'lineno', 0))}: {src}")
         ctx.check("ORMatic::no-set-is-iterated-into-the-output", z3.BoolVal(not offenders), detail=repr(offenders))
         om = vm.loader.cls(OM, "ORMatic")
